@@ -1,7 +1,7 @@
 (* C19 -- Empirical estimators implement their definitions (model: coq/model/Estim.v, tied to
    slopecovariance.calculate_structure_function and temporal_ps.py by the correspondence check). *)
 From Coq Require Import Reals List Arith.
-Require Import AOV.base.Num AOV.base.NumR AOV.base.Cplx AOV.model.Estim AOV.proofs.C19_proofs.
+Require Import AOV.base.Num AOV.base.NumR AOV.base.Cplx AOV.model.Estim AOV.proofs.C19_proofs AOV.proofs.C19_peak.
 Import ListNotations.
 Local Open Scope R_scope.
 
@@ -34,6 +34,31 @@ Theorem C19_tps_quadratic_and_parseval : forall G K s (x : list (R * R)),
     = INR (length x) * nsum (ROps G K) (map (cabs2 (ROps G K)) x).
 Proof. intros; split; [apply spectrum_quadratic|apply spectrum_parseval]. Qed.
 Print Assumptions C19_tps_quadratic_and_parseval.
+
+(* a pure sinusoid at an exact bin k0 (any amplitude and phase per sub-aperture): every other kept bin of the
+   averaged spectrum is exactly 0, bin k0 holds the mean of (A n/2)^2 -- so the spectrum peaks there *)
+Theorem C19_tps_peaks_at_the_bin_of_a_sinusoid : forall G K (data : list (list R)) (A ph : nat -> R) k0 n c,
+  (0 < k0)%nat -> (k0 < n / 2)%nat -> (1 <= c)%nat ->
+  length data = n -> Forall (fun row => length row = c) data ->
+  (forall t j, (t < n)%nat -> (j < c)%nat ->
+     nth j (nth t data []) 0 = A j * cos (2 * PI * INR k0 * INR t / INR n + ph j)) ->
+  (forall k, (k < n / 2)%nat ->
+     nth k (mean_tps (ROps G K) data) 0
+     = if Nat.eq_dec k k0 then nmean (ROps G K) (map (fun j => (A j * INR n / 2) ^ 2) (seq 0 c)) else 0) /\
+  ((exists j, (j < c)%nat /\ A j <> 0) ->
+     forall k, (k < n / 2)%nat -> k <> k0 -> nth k (mean_tps (ROps G K) data) 0 < nth k0 (mean_tps (ROps G K) data) 0).
+Proof.
+  intros G K data A ph k0 n c H0 Hk Hc Hl Hw Hd. split.
+  - intros k Hkk. apply (tps_peaks_at_sinusoid_bin G K data A ph k0 n c k); assumption.
+  - intros Hex k Hkk Hne. apply (tps_peak_is_strict G K data A ph k0 n c); assumption.
+Qed.
+Print Assumptions C19_tps_peaks_at_the_bin_of_a_sinusoid.
+
+Example C19_sinusoid_nonvacuous : forall G K,
+  let data := [[1]; [0]; [-1]; [0]] in
+  nth 0 (mean_tps (ROps G K) data) 0 = 0 /\ nth 1 (mean_tps (ROps G K) data) 0 = 4 /\
+  nth 0 (mean_tps (ROps G K) data) 0 < nth 1 (mean_tps (ROps G K) data) 0.
+Proof. exact tps_peak_n4. Qed.
 
 Theorem C19_frequency_axis : forall G K rate n k, rate <> 0 -> (0 < n)%nat -> (k < n / 2)%nat ->
   nth k (tps_axis (ROps G K) rate n) 0 = INR k * rate / INR n /\ length (tps_axis (ROps G K) rate n) = (n / 2)%nat.
